@@ -86,7 +86,10 @@ def rel_C11(ln, prev):
 
 
 def rel_C15(ln, prev):
-    return ln['op'] == 'Reset' and _ok(ln)
+    if ln['op'] == 'Reset' and _ok(ln) and prev and 'obs' in prev:
+        ln['args'] = dict(before=prev['obs']['ents'], sweep=prev.get('sweep'))
+        return True
+    return False
 
 
 def rel_C20(ln, prev):
